@@ -281,11 +281,31 @@ def switches():
     return pk.programs
 
 
+# ----------------------------------------------------------------------------------------------- F5
+
+def triples():
+    """every ordered triple of simple statements moving values between one variable, two others, X, Y and A:
+    what the peephole optimiser remembers about the registers across stores, loads and transfers"""
+    v0, v1, v2, X, Y = VAR('v0'), VAR('v1'), VAR('v2'), VAR('X'), VAR('Y')
+    S = [SET(v0, X), SET(v0, Y), SET(v0, v1), SET(v1, v0), SET(v2, v0), SET(v0, NUM(5)), SET(X, v0), SET(Y, v0),
+         SET(v0, ('bin', '+', v0, NUM(1))), SET(v1, ('bin', '+', v0, v2)), ('expr', ('post', '++', v0)),
+         ('if', v0, SET(v1, NUM(1)), None)]
+    pk = Pack("triples", cap=40, shorts=False)
+    for a in S:
+        for b in S:
+            for c in S:
+                k = pk.cell(); k1 = pk.cell(); k2 = pk.cell(); k3 = pk.cell(); k4 = pk.cell()
+                pk.add([SET(v0, NUM(1)), SET(v1, NUM(2)), SET(v2, NUM(3)), SET(X, NUM(4)), SET(Y, NUM(6)), a, b, c,
+                        SET(R(k), v0), SET(R(k1), v1), SET(R(k2), v2), SET(R(k3), X), SET(R(k4), Y)], weight=1)
+    pk.flush()
+    return pk.programs
+
+
 # ----------------------------------------------------------------------------------------------- all
 
 def all_programs(families=None):
     fams = {"update-then-test": update_then_test, "update-then-loop": update_then_loop, "comparisons": comparisons,
-            "folded": folded_comparisons, "far": far_branches, "switch": switches}
+            "folded": folded_comparisons, "far": far_branches, "switch": switches, "triples": triples}
     out = []
     for n, f in fams.items():
         if families is None or n in families:
